@@ -1015,8 +1015,10 @@ def delete_unused_functions_and_classes(
 
     constructors = collections.defaultdict(set)
     for node in classdefs:
-        for child in filter(parsing.is_magic_method, node.body):
-            constructors[node].add(child)
+        # Also those that are defined in a nested block of the class
+        for child in core.walk(node, (ast.FunctionDef, ast.AsyncFunctionDef)):
+            if parsing.is_magic_method(child):
+                constructors[node].add(child)
 
     constructor_classes = {
         magic: classdef for (classdef, magics) in constructors.items() for magic in magics
